@@ -11,6 +11,7 @@ bf_to_unsigned_refused compares accept/refuse only (see manifest note).
 """
 import random
 import struct
+import zlib
 from typing import Any, Dict, Iterator, List
 
 import core
@@ -100,10 +101,19 @@ def op_bf_sub(a):
     return _views(f)
 
 
+def _detached(decode, raw: bytes, f, what: str):
+    """the field was read out of a receive buffer (a bytearray) that the receiver reuses afterwards: value, octets and
+    hex string of the field are still the ones that were read (core.decode_detached); one field in eight, chosen by the
+    octets themselves (~330 000 fields are decoded from octets)"""
+    if zlib.crc32(raw) & 7 == 0:
+        core.check_detached(decode, raw, _views, what, expect=_views(f), memview=core.accepts_memoryview(decode))
+
+
 def op_bf_from_bytes(a):
     raw = unhx(a["raw"])
     f = UnsignedByteField.from_bytes(raw)
     _ISO.check("UnsignedByteField", f, _views)    # fields decoded by earlier calls still show what they showed then
+    _detached(UnsignedByteField.from_bytes, raw, f, "UnsignedByteField.from_bytes")
     _coherent(f, "from_bytes")
     if bytes(f.as_bytes) != raw:
         raise SelfCheckFailure("from_bytes(raw).as_bytes != raw")
@@ -114,6 +124,7 @@ def op_bf_from_un(a):
     raw = unhx(a["raw"])
     f = getattr(SUB[a["width"]], READER[a["width"]])(raw)
     _ISO.check("UnsignedByteField", f, _views)
+    _detached(getattr(SUB[a["width"]], READER[a["width"]]), raw, f, READER[a["width"]])
     _coherent(f, READER[a["width"]])
     return _views(f)
 
@@ -128,6 +139,7 @@ def op_bf_gen_bytes(a):
     raw = unhx(a["raw"])
     f = ByteFieldGenerator.from_bytes(a["width"], raw)
     _ISO.check("UnsignedByteField", f, _views)
+    _detached(lambda b: ByteFieldGenerator.from_bytes(a["width"], b), raw, f, "ByteFieldGenerator.from_bytes")
     _coherent(f, "ByteFieldGenerator.from_bytes")
     if bytes(f.as_bytes) != raw[:a["width"]]:
         raise SelfCheckFailure("generator did not take the first `width` octets")
